@@ -10,6 +10,193 @@ import time
 BAD_APP_NO_ATTR = "x = 1\n"                                   # import works, attribute 'app' missing -> AppImportError -> exit 4
 BAD_APP_RAISES = "raise RuntimeError('boom at import')\n"     # exception while loading -> worker not booted -> exit 3
 
+# boot failures produced by a server hook of the configuration instead of the application: the hook still calls the event
+# logger of the generated config (wait_workers relies on the post_worker_init events), then raises for every worker whose
+# age (spawn counter) has reached FROM_AGE.  post_fork runs first thing in the child, post_worker_init last thing before the
+# worker's main loop: both belong to the boot sequence (the worker has not served anything yet).
+HOOK_FAILS = {
+    "post_worker_init": ("_c03_orig_hook = post_worker_init\n"
+                         "def post_worker_init(worker):\n"
+                         "    _c03_orig_hook(worker)\n"
+                         "    if worker.age >= %d:\n"
+                         "        raise RuntimeError('post_worker_init hook fails (scripted)')\n"),
+    "post_fork": ("_c03_orig_hook = post_fork\n"
+                  "def post_fork(server, worker):\n"
+                  "    _c03_orig_hook(server, worker)\n"
+                  "    if worker.age >= %d:\n"
+                  "        raise RuntimeError('post_fork hook fails (scripted)')\n"),
+}
+
+# The environment's part of "SIGCHLD is handled between fork() returning and the master recording the pid": the master's NTH
+# fork() returns late - the new child has been killed meanwhile and the master's own SIGCHLD handler has run (inside the
+# sleep) - exactly what the master sees when it is descheduled right after fork().  gunicorn's code is untouched.
+EARLY_DEATH_CONF = r"""
+if not hasattr(_os, "_c03_real_fork"):
+    _os._c03_real_fork = _os.fork
+    _c03_master = _os.getpid()
+    _c03_forks = [0]
+    def _c03_fork():
+        pid = _os._c03_real_fork()
+        if pid == 0 or _os.getpid() != _c03_master:
+            return pid
+        _c03_forks[0] += 1
+        if _c03_forks[0] == %d:
+            import signal as _signal
+            _os.kill(pid, _signal.SIGKILL)
+            limit = _time.monotonic() + 5
+            while _os.path.exists("/proc/%%d" %% pid) and _time.monotonic() < limit:
+                _time.sleep(0.02)
+            _ev("early_death", wpid=pid, reaped=not _os.path.exists("/proc/%%d" %% pid))
+        return pid
+    _os.fork = _c03_fork
+"""
+STALE_GRACE = 3         # as in the simulated part: seconds beyond `timeout` the master is given to drop a pid that no longer exists
+
+
+def worker_exit_codes(srv):
+    """Exit codes of workers as the master logged them."""
+    import re
+    return [int(m) for m in re.findall(r"Worker \(pid:\d+\) exited with code (\d+)(?![\d.])", srv.error_log() + srv.stderr())]
+
+
+def hook_bootfail(run, e4, sc):
+    """A worker that cannot boot because a server hook raises.  `late`: the first pool boots and serves, a worker is then killed
+    and it is the replacement that cannot boot.  Either way the master must stop with the boot-failure status (3), must not
+    fork replacement after replacement, and must not leave workers behind."""
+    v = []
+    info = {}
+    nw = sc["workers"]
+    late = bool(sc.get("late"))
+    srv = e4.Server("c03", worker_class=sc["class"], workers=nw, settings={"graceful_timeout": 2, "timeout": 5},
+                    conf_extra=HOOK_FAILS[sc["hook"]] % (nw + 1 if late else 1))
+    try:
+        srv.start()
+        forks0 = 0
+        if late:
+            w0 = srv.wait_workers(nw, 25)
+            if not w0:
+                return v, "server did not boot: %s" % srv.stderr()[-300:], info
+            r = e4.request(srv.addr, "/pid", timeout=5)
+            if r["outcome"] != "ok":
+                v.append(("pool-not-serving", r["outcome"]))
+            forks0 = nw
+            try:
+                os.kill(w0[0], signal.SIGKILL)
+            except OSError:
+                pass
+        # a respawn loop shows within a second or two (tens of forks): no need to sit out the whole wait then
+        allowed = forks0 + 2 * nw
+        t0 = time.monotonic()
+        st = None
+        forks = 0
+        while time.monotonic() - t0 < 20:
+            st = srv.wait_exit(srv.master_pid, 0.25)
+            forks = len([e for e in srv.events() if e["kind"] == "pre_fork"])
+            if st is not None or forks > allowed + 6:
+                break
+        info["forks"] = forks
+        info["worker_exit_codes"] = worker_exit_codes(srv)[:8]
+        failed = len([e for e in srv.events() if e["kind"] == sc["hook"] and e["age"] >= (nw + 1 if late else 1)])
+        info["hook_failures"] = failed
+        if not failed:
+            return v, "the failing hook never ran: %s" % srv.stderr()[-300:], info
+        if forks > allowed:
+            v.append(("respawn-after-boot-failure", "%d forks (%d allowed: %d configured workers%s) - the %s hook raises in every new worker, "
+                      "worker exit codes logged by the master: %s" % (forks, allowed, nw, ", one killed" if late else "", sc["hook"],
+                                                                      info["worker_exit_codes"])))
+        if st is None:
+            if time.monotonic() - t0 >= 20:
+                v.append(("boot-failure-did-not-stop-master", "master still running %.0f s after a worker failed to boot (%s hook "
+                          "raised), worker exit codes logged by the master: %s" % (time.monotonic() - t0, sc["hook"],
+                                                                                   info["worker_exit_codes"])))
+            return v, None, info
+        code = None if st[0] is None else (st[0] >> 8)
+        info["exit_code"] = code
+        if code != 3:
+            v.append(("wrong-exit-status-after-boot-failure", "master exited with %r, expected 3 (%s hook raised): %s" % (
+                code, sc["hook"], srv.stderr()[-300:])))
+        else:
+            run.count("live_boot_failure_exit_status_checks")
+            run.count("live_hook_boot_failure_checks")
+            if late:
+                run.count("live_late_boot_failure_checks")
+        time.sleep(0.5)
+        left = [p for p in srv.session_pids()]
+        if left:
+            time.sleep(1.0)
+            left = [p for p in srv.session_pids()]
+        if left:
+            v.append(("orphan-at-master-exit", "processes %s of the server's session still alive after the master exited" % left))
+        return v, None, info
+    finally:
+        srv.cleanup()
+
+
+def early_death(run, e4, sc):
+    """A freshly forked worker is dead and reaped before the master records its pid (recorded finding: the pool is one short
+    for a while).  With timeout > 0 the master's heartbeat scan meets a pid that does not exist and has to drop it: the pool
+    must be complete again once timeout + STALE_GRACE seconds have passed."""
+    v = []
+    info = {}
+    nw = sc["workers"]
+    tmo = 3
+    srv = e4.Server("c03", worker_class=sc["class"], workers=nw, settings={"graceful_timeout": 2, "timeout": tmo},
+                    conf_extra=EARLY_DEATH_CONF % sc["nth"])
+    try:
+        srv.start()
+        if sc["nth"] > nw:
+            w0 = srv.wait_workers(nw, 25)
+            if not w0:
+                return v, "server did not boot: %s" % srv.stderr()[-300:], info
+            for p in w0[:sc["nth"] - nw]:
+                try:
+                    os.kill(p, signal.SIGKILL)
+                except OSError:
+                    pass
+        t0 = time.monotonic()
+        ev = None
+        while time.monotonic() - t0 < 20 and ev is None:
+            ev = next((e for e in srv.events() if e["kind"] == "early_death"), None)
+            if ev is None:
+                time.sleep(0.05)
+        if ev is None or not ev["reaped"]:
+            return v, "the interleaving was not produced (%r): %s" % (ev, srv.stderr()[-300:]), info
+        info["stale_pid"] = ev["wpid"]
+        run.count("live_reaped_before_recorded")
+        time.sleep(max(0.0, ev["t"] + tmo + STALE_GRACE - time.monotonic()))
+        w = wait_pool(e4, srv, nw, timeout=8.0)
+        info["live"] = len(w)
+        info["healed_after_s"] = round(time.monotonic() - ev["t"], 1)
+        log = srv.error_log() + srv.stderr()
+        info["timeout_scan_met_stale_pid"] = ("WORKER TIMEOUT (pid:%d)" % ev["wpid"]) in log
+        if not e4.alive(srv.master_pid):
+            v.append(("master-exited-without-cause", srv.stderr()[-300:]))
+            return v, None, info
+        if len(w) != nw:
+            v.append(("phantom-worker/not-dropped-by-timeout-scan",
+                      "real master: pid %d was reaped before the master recorded it; %.1f s later (timeout=%d) the master has %d live "
+                      "workers %s, %d configured; WORKER TIMEOUT logged for that pid: %s" % (
+                          ev["wpid"], time.monotonic() - ev["t"], tmo, len(w), w, nw, info["timeout_scan_met_stale_pid"])))
+        else:
+            run.count("live_stale_entry_dropped")
+            run.count("traces_validated_against_impl")
+        z = zombies_of(e4, srv.master_pid)
+        if z:
+            time.sleep(1.5)
+            z = zombies_of(e4, srv.master_pid)
+        if z:
+            v.append(("zombie-at-quiescence", "zombie children %s of the master" % z))
+        r = e4.request(srv.addr, "/pid", timeout=5)
+        if r["outcome"] != "ok":
+            v.append(("pool-not-serving", r["outcome"]))
+        srv.signal(signal.SIGTERM)
+        st = srv.wait_exit(srv.master_pid, 10)
+        if st is None or (st[0] not in (0, None)):
+            v.append(("nonzero-exit-after-stop-signal", "exit %r" % (st,)))
+        return v, None, info
+    finally:
+        srv.cleanup()
+
 
 def zombies_of(e4, master):
     t = e4.proc_table()
@@ -36,6 +223,10 @@ def scenario(run, e4, sc):
     info = {}
     kind = sc["kind"]
     wc = sc["class"]
+    if kind == "bootfail_hook":
+        return hook_bootfail(run, e4, sc)
+    if kind == "early_death":
+        return early_death(run, e4, sc)
     if kind in ("bootfail3", "bootfail4"):
         srv = e4.Server("c03", worker_class=wc, workers=sc["workers"], settings={"graceful_timeout": 2, "timeout": 5},
                         app_source=BAD_APP_RAISES if kind == "bootfail3" else BAD_APP_NO_ATTR)
@@ -146,7 +337,8 @@ def scenario(run, e4, sc):
 
 
 def plan(run, tier, seed):
-    run.require("live_pool_checks", "live_boot_failure_exit_status_checks")
+    run.require("live_pool_checks", "live_boot_failure_exit_status_checks", "live_hook_boot_failure_checks",
+                "live_late_boot_failure_checks", "live_reaped_before_recorded", "live_stale_entry_dropped")
     classes = ["sync", "gthread", "gevent", "eventlet"]
     hs = [
         {"workers": 2, "steps": [["kill", 1]]},
@@ -167,9 +359,27 @@ def plan(run, tier, seed):
     out.append({"kind": "bootfail3", "workers": 1, "class": "sync"})
     out.append({"kind": "bootfail4", "workers": 1, "class": classes[seed % 4]})
     out.append({"kind": "bootfail4", "workers": 2, "class": "sync"})
+    # a server hook that raises in the child: first thing after fork (post_fork) / last thing before the main loop (post_worker_init)
+    out.append({"kind": "bootfail_hook", "hook": "post_worker_init", "workers": 2, "class": classes[seed % 4]})
+    out.append({"kind": "bootfail_hook", "hook": ["post_fork", "post_worker_init"][seed % 2], "workers": 2, "late": True,
+                "class": classes[(seed + 2) % 4]})
+    out.append({"kind": "bootfail_hook", "hook": "post_fork", "workers": 1, "class": classes[(seed + 1) % 4]})
+    # a fresh worker dead and reaped before the master records it: the entry has to go once the heartbeat timeout has passed
+    out.append({"kind": "early_death", "workers": 2, "nth": 1 + seed % 3, "class": classes[(seed + 3) % 4]})
     if tier == "thorough":
         for wc in classes:
             out.append({"kind": "bootfail3", "workers": 2, "class": wc})
+        for i, wc in enumerate(classes):
+            for nth in (1, 2, 3):
+                sc = {"kind": "early_death", "workers": 2, "nth": nth, "class": wc}
+                if sc not in out:
+                    out.append(sc)
+        for i, wc in enumerate(classes):
+            for hook in ("post_fork", "post_worker_init"):
+                for late in (False, True):
+                    sc = {"kind": "bootfail_hook", "hook": hook, "workers": 1 + (i + late) % 2, "late": late, "class": wc}
+                    if not any(all(o.get(k) == sc[k] for k in sc) for o in out):
+                        out.append(sc)
     return [{"kind": "live", "scenario": dict(sc, idx=i), "seed": seed, "tier": tier} for i, sc in enumerate(out)]
 
 
@@ -181,7 +391,7 @@ def shard(run, sh):
         v, reason, info = scenario(run, e4, sc)
         if reason is None or v:
             break
-    run.case(("live", sc["kind"], sc["class"], sc["workers"], str(sc.get("steps"))))
+    run.case(("live", sc["kind"], sc["class"], sc["workers"], str(sc.get("steps")), sc.get("hook"), sc.get("late"), sc.get("nth")))
     run.count("live_scenarios")
     for mech, summary in v:
         run.violation(mech, summary + " | info=%s" % info, {"live": sc})
